@@ -42,6 +42,7 @@ func init() {
 			{"API-ACCESSOR", 8, ruleApiAccessor},
 			{"PAN-ERRDROP", 3, ruleErrDropReentry},
 			{"FUNC-RESULT", 1, ruleFuncResult},
+			{"API-ERRCHAIN", 1, ruleApiErrChain},
 			{"FUNC-ISOLATED", 2, ruleFuncIsolated},
 		},
 	})
@@ -135,11 +136,40 @@ func ruleReloadInPlace(c *Ctx, r *R) {
 		good := len(ps) >= 1
 		for _, p := range ps {
 			calls := strings.Join(p.Calls, ";")
-			if !strings.Contains(calls, "lookup.Assign(v.globals, int(I.A), Top1)") && !strings.Contains(calls, "lookup.Write(v.globals, int(I.A), Top1)") {
+			_ = calls
+			if globalSetPathMode(p) == "" {
 				good = false
 			}
 		}
 		r.check(good, "GLOBALSET", pos, "always assigns (variables with an initialiser are re-initialised)", "GLOBALSET no longer assigns unconditionally")
+	}
+	// a declaration with an initialiser gives the variable its type anew: the GLOBALSET that
+	// compile(":=") emits selects a handler path that does not convert the value to the type of
+	// what an earlier load (or the REPL's previous line, or the host's Set) left in the slot
+	if cs, err := c.compileSwitch(); err == nil && cs.ByLabel[":="] != nil {
+		m := newLayMachine(c)
+		if cl, err := m.runCase(cs, ":="); err == nil {
+			n := 0
+			for ii, it := range cl.Iters {
+				for ei, ex := range it.Exits {
+					for _, a := range ex.Atoms {
+						if a.Ins == nil || opName(a.Ins) != "GlobalSet" {
+							continue
+						}
+						n++
+						b := litField(a.Ins, "B")
+						okMode := b != nil && (globalSetModeIs(c, b, "declare") || globalSetModeIs(c, b, "raw"))
+						r.check(okMode, fmt.Sprintf("declaration store iter%d exit%d", ii, ei), c.Pos(cs.ByLabel[":="].Clause), "a declared package variable does not take the type of the slot's previous value",
+							"compile(\":=\") stores a declared package variable through the converting GLOBALSET (lookup.Assign): the initialiser is converted to the type of what an earlier Load / Eval / Set left in the slot — after `var speed uint8 = 200`, reloading the edited `var speed = 300` gives 44; in the REPL `x := 1.5` then `x := 2; x/4` gives 0.5")
+					}
+				}
+			}
+			if n == 0 {
+				r.undecided("declaration store", c.Pos(cs.ByLabel[":="].Clause), "no GLOBALSET emitted by compile(\":=\")")
+			}
+		} else {
+			r.undecided("declaration store", c.Pos(cs.ByLabel[":="].Clause), err.Error())
+		}
 	}
 	// addMethod
 	ps := c.pathsOf("Value.addMethod")
@@ -2220,4 +2250,117 @@ func rulePosStore(c *Ctx, r *R) {
 	if n == 0 {
 		r.undecided("store at its target", c.Pos(cs.Switch), "no SET/SETATTR/GET/GETATTR literal found under a target-symbol test in compile")
 	}
+}
+
+// API-ERRCHAIN: "an error raised inside a native callback or a nested call surfaces as the
+// error of the outer call".  A native raises a Go error by panic(err); run / Func recover it
+// and hand the recovered value to btErr, whose result is what the host gets.  The result must
+// keep the raised error in its chain (errors.Is / errors.As): on the path where the recovered
+// value is an error, btErr returns either fmt.Errorf with a %w verb applied to it, or a value
+// of a type whose Unwrap method returns the field the error was stored in.
+func ruleApiErrChain(c *Ctx, r *R) {
+	fd := c.Func("VM.btErr")
+	if fd == nil {
+		r.undecided("btErr", "-", "VM.btErr not found")
+		return
+	}
+	var rec types.Object
+	if ps := fd.Type.Params.List; len(ps) > 0 && len(ps[0].Names) > 0 {
+		rec = c.Info.Defs[ps[0].Names[0]]
+	}
+	// variables bound to the recovered value asserted to error
+	causes := map[types.Object]bool{}
+	ast.Inspect(fd.Body, func(n ast.Node) bool {
+		switch x := n.(type) {
+		case *ast.AssignStmt:
+			if len(x.Rhs) == 1 {
+				if ta, ok := unparen(x.Rhs[0]).(*ast.TypeAssertExpr); ok && ta.Type != nil {
+					if id, ok := unparen(ta.X).(*ast.Ident); ok && c.Obj(id) == rec && types.TypeString(c.TypeOf(ta.Type), nil) == "error" {
+						if l, ok := x.Lhs[0].(*ast.Ident); ok {
+							causes[c.Obj(l)] = true
+						}
+					}
+				}
+			}
+		case *ast.TypeSwitchStmt:
+			// switch e := r.(type) { case error: ... }
+			if as, ok := x.Assign.(*ast.AssignStmt); ok && len(as.Rhs) == 1 {
+				if ta, ok := unparen(as.Rhs[0]).(*ast.TypeAssertExpr); ok {
+					if id, ok := unparen(ta.X).(*ast.Ident); ok && c.Obj(id) == rec {
+						for _, cc := range x.Body.List {
+							cl := cc.(*ast.CaseClause)
+							if len(cl.List) == 1 && types.TypeString(c.TypeOf(cl.List[0]), nil) == "error" {
+								if o := c.Info.Implicits[cl]; o != nil {
+									causes[o] = true
+								}
+							}
+						}
+					}
+				}
+			}
+		}
+		return true
+	})
+	isCause := func(e ast.Expr) bool {
+		id, ok := unparen(e).(*ast.Ident)
+		return ok && causes[c.Obj(id)]
+	}
+	kept := false
+	where := c.Pos(fd)
+	ast.Inspect(fd.Body, func(n ast.Node) bool {
+		rs, ok := n.(*ast.ReturnStmt)
+		if !ok || len(rs.Results) != 1 {
+			return true
+		}
+		e := unparen(rs.Results[0])
+		if call, ok := e.(*ast.CallExpr); ok && c.CalleeName(call) == "fmt.Errorf" && len(call.Args) >= 2 {
+			if f, ok := c.ConstString(call.Args[0]); ok && strings.Contains(f, "%w") {
+				for _, a := range call.Args[1:] {
+					if isCause(a) {
+						kept, where = true, c.Pos(rs)
+					}
+				}
+			}
+		}
+		if u, ok := e.(*ast.UnaryExpr); ok && u.Op == token.AND {
+			e = unparen(u.X)
+		}
+		cl, ok := e.(*ast.CompositeLit)
+		if !ok {
+			return true
+		}
+		named, _ := c.TypeOf(cl).(*types.Named)
+		if named == nil {
+			return true
+		}
+		field := ""
+		for _, el := range cl.Elts {
+			if kv, ok := el.(*ast.KeyValueExpr); ok && isCause(kv.Value) {
+				if k, ok := kv.Key.(*ast.Ident); ok {
+					field = k.Name
+				}
+			}
+		}
+		if field == "" {
+			return true
+		}
+		// the type's Unwrap returns that field
+		for _, name := range []string{named.Obj().Name() + ".Unwrap"} {
+			um := c.Func(name)
+			if um == nil || um.Body == nil {
+				continue
+			}
+			ast.Inspect(um.Body, func(m ast.Node) bool {
+				if ur, ok := m.(*ast.ReturnStmt); ok && len(ur.Results) == 1 {
+					if sel, ok := unparen(ur.Results[0]).(*ast.SelectorExpr); ok && sel.Sel.Name == field {
+						kept, where = true, c.Pos(rs)
+					}
+				}
+				return true
+			})
+		}
+		return true
+	})
+	r.check(kept, "raised error stays in the chain", where, "btErr's result unwraps to the error a callback raised",
+		"btErr formats the recovered value into a new error text and drops the value: when a native callback raises a Go error (panic(errQuota), as slices.SortFunc does with the error of its nested call), errors.Is / errors.As on the error Call, Func or Load returns cannot find it — only its text surfaces")
 }
